@@ -160,6 +160,9 @@ func init() {
 			}
 			return r
 		},
+		"verifStderr": func(fr *frame, args []value) value {
+			return strings.Join(fr.i.ps.stderr, "\n")
+		},
 		"verifRunMain": func(fr *frame, args []value) value {
 			// verifRunMain(f) int: exit status of running f as a program
 			return fr.i.runMain(fr, args[0])
